@@ -506,7 +506,9 @@ static Token *paste(Token *lhs, Token *rhs) {
 
   // Tokenize the resulting string.
   Token *tok = tokenize(new_file(lhs->file->name, lhs->file->file_no, buf));
-  if (tok->next->kind != TK_EOF)
+  // The buffer may hold no token at all ("/" ## "/" starts a comment)
+  // or more than one.
+  if (tok->kind == TK_EOF || tok->next->kind != TK_EOF)
     error_tok(lhs, "pasting forms '%s', an invalid token", buf);
   tok->line_no = lhs->line_no;
   return tok;
